@@ -191,6 +191,11 @@ def st_case(draw):
         keep = tuple(order[: draw(st.integers(0, len(order)))])
         if new[2] is None or cols_p(new[2]) <= (cols1 | frozenset(keep)):
             return (universe, (leaf, fixed), existing, new, ("dp", keep))
+    if draw(st.integers(0, 3)) == 0:
+        # the target of the existing operation is a tree, not a leaf
+        pk = draw(st.sampled_from(["dedup", "dedup", "sel", "sort", "slice"]))
+        if pk != "sort" or cols0:
+            return (universe, (leaf, fixed), existing, new, None, draw(st_op(cols0, universe, fixed[1], kind=pk)))
     return (universe, (leaf, fixed), existing, new)
 
 
@@ -360,12 +365,21 @@ def run_case(case, stats):
 
     universe, leaves, existing, new, *rest = case
     fshape = rest[0] if rest else None
+    prefix = rest[1] if len(rest) > 1 else None
     env = Env(leaves)
     try:
         leaf, fixed = env.leafrels
         T = leaf_rows(leaves[0])
         F = leaf_rows(leaves[1])
         cols0, fcols = frozenset(leaves[0][1]), frozenset(leaves[1][1])
+        if prefix is not None:
+            # the target is itself a tree: one column-preserving operation over the leaf
+            if well_formed(prefix, cols0, fcols):
+                stats.c["skipped:prefix-invalid"] += 1
+                return
+            leaf = to_lib(prefix, fixed).apply(leaf)
+            T = apply_spec(prefix, T, cols0, F, fcols)
+            stats.c[f"target-is-a-tree:{prefix[0]}"] += 1
         if fshape is not None:
             fixed = fixed.without_duplicates().with_only_columns(set(fshape[1]))
             F = [{t: r[t] for t in fshape[1]} for r in dedup_rows(F, False)]
@@ -400,8 +414,11 @@ def run_case(case, stats):
                 return
             new = from_lib(lnew, fixed)
         pair = f"{existing[0]}>{new[0]}"
-        ctx = f"existing {fmt_spec(existing)}; new {fmt_spec(new)}; target {fmt_leaves(leaves[:1])}; fixed {fmt_leaves(leaves[1:])}" + (
-            f" deduplicated then projected onto {list(fshape[1])}" if fshape else ""
+        ctx = (
+            f"existing {fmt_spec(existing)}; new {fmt_spec(new)}; target {fmt_leaves(leaves[:1])}"
+            + (f" after {fmt_spec(prefix)}" if prefix else "")
+            + f"; fixed {fmt_leaves(leaves[1:])}"
+            + (f" deduplicated then projected onto {list(fshape[1])}" if fshape else "")
         )
         try:
             c = lnew.commute(current)
@@ -527,6 +544,7 @@ def exhaustive(tier, stats, shard, nshards, run):
         pairs = [(fixed, existing, new) for existing in g + customs for new in g]
         pairs += [(identity, existing, new) for existing in g + customs for new in idjoins]
         pairs += [(fixed, existing, new, ("dp", (A,))) for existing in g + customs for new in g if new[0] == "pjoin" and new[2] is None]
+        pairs += [(fixed, existing, new, None, ("dedup",)) for existing in g for new in g if existing[0] in ("proj", "calc", "sel", "sort") or new[0] == "dedup"]
         for fx, existing, new, *shape in pairs:
             idx += 1
             if idx % nshards != shard:
@@ -543,8 +561,10 @@ def exhaustive(tier, stats, shard, nshards, run):
 def describe(case):
     universe, leaves, existing, new, *rest = case
     d = {"target": fmt_leaves(leaves[:1]), "fixed_join_operand": fmt_leaves(leaves[1:]), "existing": fmt_spec(existing), "new": fmt_spec(new)}
-    if rest:
+    if rest and rest[0]:
         d["fixed_join_operand_shape"] = f"deduplicated, then projected onto {[str(t) for t in rest[0][1]]}"
+    if len(rest) > 1 and rest[1]:
+        d["target_is"] = f"{fmt_spec(rest[1])} over the leaf"
     return d
 
 
